@@ -26,7 +26,10 @@ def handler(job):
     plt.sca(a if job.get("ax_is_current") else b)
     out = {}
     if job["kind"] == "diagrams":
-        dgms = [np.array(d, dtype=float).reshape(-1, 2) for d in job["dgms"]]
+        dt = np.float32 if job.get("float32") else float
+        dgms = [np.array(d, dtype=dt).reshape(-1, 2) for d in job["dgms"]]
+        if job.get("repeat_first"):          # the SAME array object appears twice in the list
+            dgms = [dgms[0]] + dgms
         kw = dict(ax=a, lifetime=bool(job["lifetime"]), legend=bool(job["legend"]), diagonal=bool(job.get("diagonal", True)))
         if job.get("plot_only"):
             kw["plot_only"] = job["plot_only"]
